@@ -1,7 +1,9 @@
 package props
 
 import (
+	"encoding/base64"
 	"encoding/hex"
+	"encoding/json"
 	"fmt"
 	"strconv"
 
@@ -9,6 +11,7 @@ import (
 	"github.com/lidofinance/dc4bc/pkg/wc_rotation"
 
 	"verifharness/oracle"
+	"verifharness/world"
 )
 
 // C17: baked withdrawal-credential messages equal the consensus-spec signing roots.
@@ -193,6 +196,93 @@ func checkC17(c *Ctx) {
 		}
 	}
 	c.Set("ranges_expanded", len(ranges))
+	c17ThroughTheAPI(c, len(lines))
 	c.Exhaustive = true
 	c.Set("random_indices", nrand)
+}
+
+// c17ThroughTheAPI (6): positions are offered for signing through POST /proposeSignBakedMessages (and the
+// dc4bc_cli sign_baked command when the binary is available): a window reaching outside the list, by any
+// amount incl. multiples of 2^32 and negative bounds, must be refused; if a request is accepted, the
+// proposal the node posts must name exactly the requested window.
+func c17ThroughTheAPI(c *Ctx, listLen int) {
+	ce, err := NewCeremonyWith(world.Options{N: 2, T: 2, Seed: c.Seed*163 + 5, ViaHTTP: true, ViaCLI: true}, world.EagerPolicy)
+	if err != nil || !ce.AllIn(StIdle) {
+		c.Inconclusive("world for the API part: %v", err)
+		return
+	}
+	defer ce.Close()
+	w, nd := ce.W, ce.W.Nodes[0]
+	snap, blen := nd.Mem.Snapshot(), w.Board.Len()
+	id, _ := hex.DecodeString(ce.Round)
+	two32 := int64(1) << 32
+	L := int64(listLen)
+	windows := [][2]int64{
+		{0, 3}, {L - 2, L}, // controls (inside the list)
+		{L, L + 1}, {L - 1, L + 1}, {-1, 2}, {-5, -2}, {two32, two32 + 5}, {0, -two32 + 5}, {two32 - 1, two32 + 2},
+		{0, two32 + 3}, {1 << 31, 1<<31 + 2}, {-two32, -two32 + 4}, {1 << 62, 1<<62 + 3}, {3, 1}, {L + 5, L + 2},
+	}
+	for _, wd := range windows {
+		inside := wd[0] >= 0 && wd[1] <= L && wd[0] <= wd[1]
+		for _, channel := range []string{"rest", "cli"} {
+			if channel == "cli" && nd.CLI == nil {
+				continue
+			}
+			nd.Mem.Restore(snap)
+			w.Board.Truncate(blen)
+			var err error
+			if channel == "rest" {
+				_, err = nd.API.Raw("POST", "/proposeSignBakedMessages", nil, []byte(fmt.Sprintf(`{"dkgID":%q,"range_start":%d,"range_end":%d}`, base64.StdEncoding.EncodeToString(id), wd[0], wd[1])))
+			} else {
+				_, err = nd.CLI.Run("", "sign_baked", ce.Round, fmt.Sprint(wd[0]), fmt.Sprint(wd[1]))
+			}
+			c.Eval(1)
+			c.Distinct(fmt.Sprintf("api-window|%s|%d-%d", channel, wd[0], wd[1]))
+			c.Add("windows_offered_through_"+channel, 1)
+			wit := map[string]interface{}{"channel": channel, "range_start": wd[0], "range_end": wd[1], "list_length": listLen}
+			posted := w.Board.All()[blen:]
+			if err != nil {
+				if inside && wd[0] < wd[1] {
+					c.Violate("C17/valid-range-refused", fmt.Sprintf("window [%d,%d) inside the list refused through %s: %v", wd[0], wd[1], channel, err), wit)
+				}
+				if len(posted) > 0 {
+					c.Violate("C17/refused-window-posted-a-proposal", fmt.Sprintf("[%d,%d) through %s", wd[0], wd[1], channel), wit)
+				}
+				continue
+			}
+			for _, m := range posted {
+				if m.Event != EvSigningStart {
+					continue
+				}
+				var p struct {
+					SigningTasks []struct{ RangeStart, RangeEnd int64 }
+				}
+				_ = json.Unmarshal(m.Data, &p)
+				for _, t := range p.SigningTasks {
+					if t.RangeStart != wd[0] || t.RangeEnd != wd[1] {
+						c.Violate("C17/posted-window-differs-from-the-requested-one", fmt.Sprintf("[%d,%d) requested through %s, [%d,%d) posted: messages for positions nobody named", wd[0], wd[1], channel, t.RangeStart, t.RangeEnd), wit)
+					}
+				}
+				// the proposer's API does not look at the list; every node does when it consumes the proposal
+				var perr error
+				var pan interface{}
+				func() {
+					defer func() { pan = recover() }()
+					perr = nd.Svc.ProcessMessage(m)
+				}()
+				if pan != nil {
+					c.Violate("C17/out-of-range-position-panics", fmt.Sprintf("proposal for [%d,%d): %v", wd[0], wd[1], pan), wit)
+				} else if !inside && (perr == nil || NodeState(nd, ce.Round) != StIdle) {
+					c.Violate("C17/out-of-range-position-accepted", fmt.Sprintf("the proposal for window [%d,%d) (offered through %s) was accepted by the node: err=%v, state %s", wd[0], wd[1], channel, perr, NodeState(nd, ce.Round)), wit)
+				} else if !inside {
+					c.Add("out_of_list_proposals_refused_on_consumption", 1)
+				} else if perr != nil {
+					c.Violate("C17/valid-range-refused", fmt.Sprintf("proposal for [%d,%d) refused on consumption: %v", wd[0], wd[1], perr), wit)
+				}
+			}
+			if !inside && len(posted) == 0 {
+				c.Add("out_of_list_windows_accepted_without_effect", 1)
+			}
+		}
+	}
 }
